@@ -1,6 +1,6 @@
 import MypyVerif.Proofs.LangSoundS
 /-!
-# C01 — accepted programs do not go wrong (MiniPy fragment, stages 1–4)
+# C01 — accepted programs do not go wrong (MiniPy fragment, stages 1–5)
 
 `soundness`: for every well-formed program `P` that the algorithmic checker `tc` (the transcription of mypy's
 rules on the fragment, `Model/LangTc.lean`) accepts with probe type map `tm`, for **every** fuel, every consistent
@@ -11,13 +11,16 @@ member of the type `tc` recorded for that probe, and a returned value is a membe
 Since `tc` records no type for code it skips as unreachable, "every logged probe has a recorded type" is also the
 third clause of the property (no execution of code treated as unreachable) for every block that starts with a probe.
 
-The full-strength statement (all programs mypy accepts) is **false** of the current mypy; the four ways it
+The full-strength statement (all programs mypy accepts) is **false** of the current mypy; the ways it
 fails inside this fragment are kept visible as theorems with concrete witnesses:
 * `not_soundness_F19`, `not_soundness_F18` — without `WF` (declared-but-unassigned attribute; covariant
   redeclaration of a mutable attribute) `tc` accepts and evaluation ends in AttributeError / TypeError;
-* `hole_union_setattr`, `hole_loop_cap`, `hole_union_isinstance_mi`, `hole_masked_assignment`, `hole_finally_jump` — the rules where `tc` deliberately
+* `hole_union_setattr`, `hole_loop_cap`, `hole_union_isinstance_mi`, `hole_masked_assignment`, `hole_finally_jump`,
+  `hole_bool_signature` — the rules where `tc` deliberately
   answers `hole k` instead of mypy's "accept" (assignment to an attribute through a union receiver; the 4-pass
-  cap of `accept_loop`; isinstance on a union dropping an item that shares a subclass with the tested class):
+  cap of `accept_loop`; isinstance on a union dropping an item that shares a subclass with the tested class; a
+  narrowing captured at a jump masking an assignment; a jump through an assigning `finally`; an unchecked
+  `__bool__` signature):
   well-formed witnesses on which evaluation ends in TypeError / AttributeError.
 -/
 namespace Lang
@@ -340,6 +343,56 @@ theorem hole_finally_jump :
     WF progFinallyJump ∧ tc progFinallyJump = .error (.hole 6) ∧
     (evalCall 40 progFinallyJump (progFinallyJump.funcs[0]!) [.int 1] { heap := [], log := [] }).1 = .error .typeError := by
   decide
+
+/-- mypy does not check the signature of `__bool__`; CPython insists on a bool result
+```python
+class K0:
+    def __bool__(self) -> int: return 2
+def f0(p0: K0) -> int:
+    if p0: return 1
+    return 0
+```
+-/
+def progBoolSig : Prog :=
+  { classes := [{ bases := [], mro := [0], attrs := [], init := { params := [], assigns := [] },
+                  methods := [(boolMeth, { params := [], locals := [], ret := [.int], body := .ret (.intLit 2) })] }],
+    funcs := [{ params := [[.cls 0]], locals := [], ret := [.int],
+                body := .seq (.ite (.var 0) (.ret (.intLit 1)) .pass) (.ret (.intLit 0)) }] }
+
+theorem hole_bool_signature :
+    WF progBoolSig ∧ tc progBoolSig = .error (.hole 7) ∧
+    (evalCall 40 progBoolSig (progBoolSig.funcs[0]!) [.ref 0] { heap := [{ cls := 0, fields := [] }], log := [] }).1
+      = .error .typeError := by
+  decide
+
+/-- a user-defined `__bool__` inside the theorem: the truth of an instance is what its method returns, so the
+    false branch of `if x:` keeps the class (`x: K0 | None` stays `K0 | None` there), the true branch loses None
+```python
+class K0:
+    a0: int
+    def __init__(self, p0: int) -> None: self.a0 = p0
+    def __bool__(self) -> bool: return 0 < self.a0
+def f0(p0: Optional[K0]) -> int:
+    if p0:
+        probe(1, p0)                 # K0
+        return p0.a0
+    probe(2, p0)                     # K0 | None
+    return 0
+```
+-/
+def progBool : Prog :=
+  { classes := [{ bases := [], mro := [0], attrs := [(0, [.int])], init := { params := [[.int]], assigns := [(0, .var 0)] },
+                  methods := [(boolMeth, { params := [], locals := [], ret := [.bool],
+                                           body := .ret (.lt (.intLit 0) (.attr (.var 0) 0)) })] }],
+    funcs := [{ params := [[.cls 0, .none]], locals := [], ret := [.int],
+                body := .seq (.ite (.var 0) (.seq (.expr (.probe 1 (.var 0))) (.ret (.attr (.var 0) 0))) .pass) <|
+                        .seq (.expr (.probe 2 (.var 0))) (.ret (.intLit 0)) }] }
+
+example : WF progBool ∧ tc progBool = .ok [(1, [.cls 0]), (2, [.cls 0, .none])] := by decide
+example : evalCall 40 progBool (progBool.funcs[0]!) [.ref 0] { heap := [{ cls := 0, fields := [(0, .int 0)] }], log := [] }
+    = (.ok (.int 0), { heap := [{ cls := 0, fields := [(0, .int 0)] }], log := [(2, .ref 0)] }) := by decide
+example : (evalCall 40 progBool (progBool.funcs[0]!) [.ref 0] { heap := [{ cls := 0, fields := [(0, .int 4)] }], log := [] }).1
+    = .ok (.int 4) := by decide
 
 /-- exceptions inside the theorem: an assignment in a *nested* try is visible in the outer handler
 ```python
